@@ -54,7 +54,9 @@ func (valdec arrayDecoder) Decode(dec *Decoder, p interface{}, tag byte) {
 			}
 		case n < count:
 			temp := valdec.et.UnsafeNew()
-			for i := n; i < count; i++ {
+			// (the count of a reader-backed stream is not bounded by what has arrived:
+			// stop at the first error instead of going through all of it)
+			for i := n; i < count && dec.Error == nil; i++ {
 				valdec.decodeElem(dec, et, temp)
 			}
 		}
